@@ -43,7 +43,7 @@ def admissibleB (file : List Line) (h : Hunk) (iw : Bool) (maxFuzz : Int) (p f :
   let (pf, sf) := fuzzPair h.lines f
   decide ((f : Int) ≤ maxFuzz) && decide (f ≤ max (prefixCtx h.lines) (suffixCtx h.lines))
     && decide (pf + sf < h.lines.length)
-    && decide (p + olds.length ≤ file.length + sf) && decide (p < file.length)
+    && decide (p + olds.length ≤ file.length + sf)
     && (List.range olds.length).all fun i =>
          decide (i < pf) || decide (olds.length - sf ≤ i) ||
          (match file[p + i]?, olds[i]? with
